@@ -25,6 +25,9 @@ import mslgen
 import mslprobe
 import mslprogs
 import mslread
+import cfskel
+
+SHAPES = None          # cfskel.Shapes: recogniser of the control-flow encodings (coq/Target/Shapes.v) over every text read
 import nagarun
 import ocamlbuild
 import vcheck
@@ -33,7 +36,7 @@ LEVEL = "proof"
 M32 = 1 << 32
 FUEL = 30000          # statement/expression steps per run (thorough: x4)
 
-MODEL_FILES = ["Msl/Syntax.v", "Msl/Ops.v", "Msl/Sem.v", "Msl/Run.v", "Msl/Layout.v", "Msl/Decode.v",
+MODEL_FILES = cfskel.TARGET_FILES + ["Msl/Syntax.v", "Msl/Ops.v", "Msl/Sem.v", "Msl/Run.v", "Msl/Layout.v", "Msl/Decode.v",
                "Msl/Catalogue.v", "Msl/CatalogueProofs.v", "Msl/FloatConv.v", "Msl/FloatConvProofs.v", "Msl/VectorProofs.v",
                "Msl/VectorProofs2.v", "Msl/IrMeaning.v", "Msl/Agreement.v", "Msl/CatalogueTie.v"]
 
@@ -267,6 +270,8 @@ def queue_program(ctx, enums, runner, name, r, setnames, mode, rt, n_inputs, tag
             except mslread.OutOfFragment as e:
                 out.append({"name": name, "ep": ep["Name"], "set": sn, "oof": "reader: %s" % e, "tag": tag, "text": m["text"]})
                 continue
+            if SHAPES is not None:
+                SHAPES.add("%s:%s:%s" % (name, ep["Name"], sn), ast, {"output.metal": m["text"], "case.txt": "%s entry %s option set %s" % (name, ep["Name"], sn)})
             epn = mslcorr.entry_names(m["info"]).get(ep["Name"], ep["Name"])
             epf = [f for f in ast["funcs"] if f["name"] == epn]
             if not epf:
@@ -437,6 +442,9 @@ def run(ctx):
     cap_violations(ctx)
     tools = vcheck.build_harness(["msldrive", "goextract"])
     lap("build_harness")
+    global SHAPES
+    SHAPES = cfskel.Shapes(cfskel.build_exe(), "msl")
+    SHAPES.ctx = ctx
     broken = None
     gen_error = None
 
@@ -584,6 +592,9 @@ def run(ctx):
                                   "programs": len(mslprogs.POLICY), "out_of_fragment": pstats["out_of_fragment"],
                                   "inputs_undefined_in_reference": pstats["ir_undefined"]}
     ctx.cov["generated_programs"] = {k: v for k, v in gstats.items() if k != "distinct"}
+    if SHAPES is not None:
+        SHAPES.run()
+        ctx.cov["control_flow_shapes"] = SHAPES.evidence()
     ctx.cov["phase_seconds"] = T
     ctx.cov["programs"] = nprog + ncorp + len(mslprogs.POLICY) + gstats["programs"]
     ctx.cov["disagreements_checked"] = stats["disagreements"] + pstats["disagreements"] + gstats["disagreements"]
